@@ -34,14 +34,41 @@
 (* The lexer is stateless and max-munch, so some adjacent pairs cannot be  *)
 (* delivered at all (Feasible); they are not enumerated.                   *)
 (*                                                                         *)
-(* Model drift on the unchanged tree: none (see checks/c08impl.py; every   *)
-(* enumerated sequence is spelled, lexed back to the same classes, parsed, *)
-(* and the GrammarType / HasParseError / io.EOF lists agree).              *)
+(* What TLC establishes (CssImpl_quick / _quick5 / _thorough / _thorough6):*)
+(*   Refines              every step is a step of CssStream.tla: while no  *)
+(*                        parse error was reported an End unit closes the  *)
+(*                        innermost open Begin of its kind, the depth is   *)
+(*                        never negative, every Begin is closed before the *)
+(*                        final report, nothing follows ErrorGrammar/io.EOF*)
+(*   StackAgrees          until the first parse error p.state IS the stack *)
+(*                        of open blocks (the "TODO: buggy" pops of the    *)
+(*                        error branches come with a parse error)          *)
+(*   KeepWSOnlyInUnknown, Terminates (at most 2n+2 calls for n tokens),    *)
+(*   EndSticky            (a further call reports io.EOF again, no change) *)
+(* p.level is NOT restored by errors: `@x{)}` or a declaration error at a  *)
+(* ')' leave it negative for the rest of the input, after which ';' and '}'*)
+(* no longer end anything until the end of input unwinds the stack.  The   *)
+(* nesting clauses are not affected (they stop at the first parse error,   *)
+(* and parseAtRuleUnknown reports no unit but Token / EndAtRule), which is *)
+(* why no "level" regression is among the defect configurations: P can   *)
+(* not see it; the differential replay does (see checks/c08impl.py).       *)
+(*                                                                         *)
+(* Defect configurations (each must violate Refines):                      *)
+(*   CssImpl_defect_atdecl  AtDeclEndsAtEOF = FALSE   `@page{`             *)
+(*   CssImpl_defect_iehack  StarAloneAtEOF  = FALSE   `a{*`                *)
+(*   CssImpl_defect_pop     GuardedPop      = FALSE   `}` then a panic     *)
+(*                                                                         *)
+(* Model drift on the unchanged tree: none.  Every enumerated sequence     *)
+(* (2.6M at MaxTok = 5) is spelled, lexes back to the same classes, and    *)
+(* the GrammarType / HasParseError / io.EOF lists of css.Parser equal the  *)
+(* prediction.  The first version of the model differed in one place, now  *)
+(* modelled: the IE hack joined with an at-keyword (see DeclarationList).  *)
 (***************************************************************************)
 EXTENDS Integers, Sequences, FiniteSets, TLC, Json, CSV, IOUtils
 
 CONSTANTS MaxTok,
           Alphabet,           \* the token classes enumerated (a subset of Classes)
+          Modes,              \* the modes enumerated: a subset of BOOLEAN (TRUE = inline style attribute)
           Emit,               \* TRUE: write every sequence with its predicted units to IOEnv.VERIF_CASES
           \* --- switches that turn the model into a plausible regression (all TRUE = the code as it is) ---
           AtDeclEndsAtEOF,    \* parseAtRuleDeclarationList pops its state and reports EndAtRule at end of input too
@@ -84,34 +111,36 @@ Push(s, f) == [s EXCEPT !.st = Append(@, f)]
 PopSt(s) == [s EXCEPT !.st = SubSeq(@, 1, Len(@) - 1)]
 PopStGuarded(s) == IF GuardedPop /\ Len(s.st) <= 1 THEN s ELSE PopSt(s)
 
+\* TLC re-evaluates a LET definition or an operator argument at every use inside an action; binding through a set
+\* constructor evaluates e once (x is bound to a value).  With(e, F) = F(e).
+With(e, F(_)) == CHOOSE r \in {F(x) : x \in {e}} : TRUE
+
 \* popToken(allowComment): skips whitespace (unless keepWS) and comments (a comment is returned if allowComment and the
 \* parser is at the top level); result: the token class and the index after it
 RECURSIVE PopTok(_, _, _)
 PopTok(i, kw, stopAtComment) ==
-    LET c == Tok(i) IN
+    With(Tok(i), LAMBDA c :
     IF c = "eof" THEN [t |-> "eof", i |-> i]
     ELSE IF c = "ws" /\ ~kw THEN PopTok(i + 1, kw, stopAtComment)
     ELSE IF c = "comment" THEN (IF stopAtComment THEN [t |-> c, i |-> i + 1] ELSE PopTok(i + 1, kw, stopAtComment))
-    ELSE [t |-> c, i |-> i + 1]
-Pop(s) == PopTok(s.i, s.kw, FALSE)
-At(s, p) == [s EXCEPT !.i = p.i]
+    ELSE [t |-> c, i |-> i + 1])
+\* popToken(false) on the registers s: [t |-> the token, s |-> the registers after it]
+Adv(s) == With(PopTok(s.i, s.kw, FALSE), LAMBDA p : [t |-> p.t, s |-> [s EXCEPT !.i = p.i]])
 
 \* `for p.tt == SemicolonToken { popToken(false) }`
 RECURSIVE SkipSemis(_, _)
-SkipSemis(t, s) == IF t = "semi" THEN LET p == Pop(s) IN SkipSemis(p.t, At(s, p)) ELSE [t |-> t, s |-> s]
+SkipSemis(t, s) == IF t = "semi" THEN With(Adv(s), LAMBDA a : SkipSemis(a.t, a.s)) ELSE [t |-> t, s |-> s]
 
 BlockOf(kind) == CASE kind = "atrl" -> "ARL" [] kind = "atdl" -> "ADL" [] OTHER -> "AU"
 
 \* parseAtRule: prelude up to '{' (block), ';' / '}' / end of input (AtRuleGrammar; the '}' is delivered again)
 RECURSIVE AtRule(_, _)
 AtRule(kind, s) ==
-    LET p == Pop(s)
-        t == p.t
-        s1 == At(s, p)
-    IN IF t = "lbrace" /\ s.lv = 0 THEN Ret("BeginAtRule", FALSE, Push(s1, BlockOf(kind)))
-       ELSE IF Terminator(t, s.lv) THEN Ret("AtRule", FALSE, [s1 EXCEPT !.pe = (t = "rbrace")])
-       ELSE IF t \in Closers /\ s.lv = 0 THEN Ret("Error", TRUE, PopStGuarded(s1))       \* "unexpected ending in at rule"
-       ELSE AtRule(kind, [s1 EXCEPT !.lv = Bump(t, @)])
+    With(Adv(s), LAMBDA a :
+    IF a.t = "lbrace" /\ a.s.lv = 0 THEN Ret("BeginAtRule", FALSE, Push(a.s, BlockOf(kind)))
+    ELSE IF Terminator(a.t, a.s.lv) THEN Ret("AtRule", FALSE, [a.s EXCEPT !.pe = (a.t = "rbrace")])
+    ELSE IF a.t \in Closers /\ a.s.lv = 0 THEN Ret("Error", TRUE, PopStGuarded(a.s))     \* "unexpected ending in at rule"
+    ELSE AtRule(kind, [a.s EXCEPT !.lv = Bump(a.t, @)]))
 
 \* parseQualifiedRule: t is the token the call started with, then popToken(false) until '{' at level 0
 RECURSIVE QualifiedRule(_, _)
@@ -119,58 +148,54 @@ QualifiedRule(t, s) ==
     IF t = "lbrace" /\ s.lv = 0 THEN Ret("BeginRuleset", FALSE, Push(s, "QDL"))
     ELSE IF t = "eof" THEN Ret("Error", TRUE, s)                                         \* "unexpected ending in qualified rule"
     ELSE IF t \in Closers /\ s.lv = 0 THEN Ret("Error", TRUE, PopStGuarded(s))
-    ELSE LET p == Pop(s) IN QualifiedRule(p.t, [At(s, p) EXCEPT !.lv = Bump(t, @)])
+    ELSE With(Adv([s EXCEPT !.lv = Bump(t, @)]), LAMBDA a : QualifiedRule(a.t, a.s))
 
 \* parseDeclarationError: t is the offending token; skip to ';' / '}' at level 0 or the end of input
 RECURSIVE DeclError(_, _)
 DeclError(t, s) ==
     IF Terminator(t, s.lv) THEN Ret("Error", TRUE, [s EXCEPT !.pe = (t = "rbrace")])
-    ELSE LET p == Pop(s) IN DeclError(p.t, [At(s, p) EXCEPT !.lv = Bump(t, @)])
+    ELSE With(Adv([s EXCEPT !.lv = Bump(t, @)]), LAMBDA a : DeclError(a.t, a.s))
 
 \* parseDeclaration: the name is in the buffer; first = what the first token after the name was ("none" so far | "colon" | "other")
 RECURSIVE Declaration(_, _)
 Declaration(first, s) ==
-    LET p == Pop(s)
-        t == p.t
-        s1 == At(s, p)
-    IN IF Terminator(t, s.lv) THEN
-            (IF first = "colon" THEN Ret("Declaration", FALSE, [s1 EXCEPT !.pe = (t = "rbrace")])
-             ELSE DeclError(t, s1))                                                       \* "expected colon in declaration"
-       ELSE IF t = "lbrace" /\ s.lv = 0 /\ ~inline THEN Ret("BeginRuleset", FALSE, Push(s1, "QDL"))   \* nested ruleset
-       ELSE IF t \in Closers /\ s.lv = 0 THEN DeclError(t, s1)                            \* "unexpected ending in declaration"
-       ELSE Declaration(IF first # "none" \/ t = "ws" THEN first ELSE IF t = "colon" THEN "colon" ELSE "other",
-                        [s1 EXCEPT !.lv = Bump(t, @)])
+    With(Adv(s), LAMBDA a :
+    IF Terminator(a.t, a.s.lv) THEN
+         (IF first = "colon" THEN Ret("Declaration", FALSE, [a.s EXCEPT !.pe = (a.t = "rbrace")])
+          ELSE DeclError(a.t, a.s))                                                       \* "expected colon in declaration"
+    ELSE IF a.t = "lbrace" /\ a.s.lv = 0 /\ ~inline THEN Ret("BeginRuleset", FALSE, Push(a.s, "QDL"))   \* nested ruleset
+    ELSE IF a.t \in Closers /\ a.s.lv = 0 THEN DeclError(a.t, a.s)                        \* "unexpected ending in declaration"
+    ELSE Declaration(IF first # "none" \/ a.t = "ws" THEN first ELSE IF a.t = "colon" THEN "colon" ELSE "other",
+                     [a.s EXCEPT !.lv = Bump(a.t, @)]))
 
 \* parseCustomProperty: colon, then the lexer's raw tokens (whitespace and comments included) up to ';' / '}' at level 0
 RECURSIVE CustomValue(_)
 CustomValue(s) ==
-    LET t == Tok(s.i)
-        s1 == [s EXCEPT !.i = IF t = "eof" THEN @ ELSE @ + 1]
-    IN IF Terminator(t, s.lv) THEN Ret("CustomProperty", FALSE, [s1 EXCEPT !.pe = (t = "rbrace")])
-       ELSE IF t \in Closers /\ s.lv = 0 THEN Ret("Error", TRUE, s1)                      \* "unexpected ending in custom property"
-       ELSE CustomValue([s1 EXCEPT !.lv = Bump(t, @)])
+    With([t |-> Tok(s.i), s |-> [s EXCEPT !.i = IF @ > Len(toks) THEN @ ELSE @ + 1]], LAMBDA a :
+    IF Terminator(a.t, a.s.lv) THEN Ret("CustomProperty", FALSE, [a.s EXCEPT !.pe = (a.t = "rbrace")])
+    ELSE IF a.t \in Closers /\ a.s.lv = 0 THEN Ret("Error", TRUE, a.s)                    \* "unexpected ending in custom property"
+    ELSE CustomValue([a.s EXCEPT !.lv = Bump(a.t, @)]))
 CustomProperty(s) ==
-    LET p == Pop(s) IN
-    IF p.t # "colon" THEN Ret("Error", TRUE, At(s, p))                                    \* "expected colon in custom property"
-    ELSE CustomValue(At(s, p))
+    With(Adv(s), LAMBDA a :
+    IF a.t # "colon" THEN Ret("Error", TRUE, a.s)                                         \* "expected colon in custom property"
+    ELSE CustomValue(a.s))
 
 \* parseDeclarationList
 DeclarationList(t0, s0) ==
-    LET a == IF t0 = "comment" THEN (LET p == Pop(s0) IN [t |-> p.t, s |-> At(s0, p)]) ELSE [t |-> t0, s |-> s0]
-        b == SkipSemis(a.t, a.s)
-        \* IE hack: '*' is joined with the next token and takes its type
-        c == IF b.t = "star"
-             THEN (LET p == Pop(b.s) IN
-                   IF p.t = "eof" /\ StarAloneAtEOF THEN [t |-> "star", s |-> At(b.s, p)] ELSE [t |-> p.t, s |-> At(b.s, p)])
-             ELSE b
-        t == c.t
-        s == c.s
-    IN IF t = "eof" THEN Ret("Error", FALSE, s)
-       ELSE IF t \in AtKw THEN AtRule(t, s)
-       ELSE IF t \in {"ident", "delim", "star"} THEN Declaration("none", s)
-       ELSE IF t = "cpname" THEN CustomProperty(s)
-       ELSE IF t = "rbrace" THEN Ret("Error", TRUE, s)                                    \* "unexpected token in declaration"
-       ELSE DeclError(t, s)
+    With(IF t0 = "comment" THEN Adv(s0) ELSE [t |-> t0, s |-> s0], LAMBDA a :
+    With(SkipSemis(a.t, a.s), LAMBDA b :
+    \* IE hack: '*' is joined with the next token and takes its type.  Joined with an at-keyword the name is "*@media":
+    \* parseAtRule hashes "@media", which is none of the known names, so the rule is of the unknown kind whatever it was
+    \* (found by the differential replay: `*@media{;` in a style attribute yields Token units).
+    With(IF b.t # "star" THEN b
+         ELSE With(Adv(b.s), LAMBDA n : IF n.t = "eof" /\ StarAloneAtEOF THEN [t |-> "star", s |-> n.s]
+                                        ELSE IF n.t \in AtKw THEN [t |-> "atun", s |-> n.s] ELSE n), LAMBDA c :
+    IF c.t = "eof" THEN Ret("Error", FALSE, c.s)
+    ELSE IF c.t \in AtKw THEN AtRule(c.t, c.s)
+    ELSE IF c.t \in {"ident", "delim", "star"} THEN Declaration("none", c.s)
+    ELSE IF c.t = "cpname" THEN CustomProperty(c.s)
+    ELSE IF c.t = "rbrace" THEN Ret("Error", TRUE, c.s)                                   \* "unexpected token in declaration"
+    ELSE DeclError(c.t, c.s))))
 
 Stylesheet(t, s) ==
     IF t = "cdo" THEN Ret("Token", FALSE, s)
@@ -186,32 +211,32 @@ AtRuleRuleList(t, s) ==
     ELSE QualifiedRule(t, s)
 
 AtRuleDeclarationList(t0, s0) ==
-    LET b == SkipSemis(t0, s0) IN
+    With(SkipSemis(t0, s0), LAMBDA b :
     IF b.t = "rbrace" \/ (b.t = "eof" /\ AtDeclEndsAtEOF) THEN Ret("EndAtRule", FALSE, PopSt(b.s))
-    ELSE DeclarationList(b.t, b.s)
+    ELSE DeclarationList(b.t, b.s))
 
 QualifiedRuleDeclarationList(t0, s0) ==
-    LET b == SkipSemis(t0, s0) IN
+    With(SkipSemis(t0, s0), LAMBDA b :
     IF b.t \in {"rbrace", "eof"} THEN Ret("EndRuleset", FALSE, PopSt(b.s))
-    ELSE DeclarationList(b.t, b.s)
+    ELSE DeclarationList(b.t, b.s))
 
-AtRuleUnknown(t, s0) ==
-    LET s == [s0 EXCEPT !.kw = TRUE] IN
+AtRuleUnknown(t, s) ==
+    \* p.keepWS = true, first thing
     IF (t = "rbrace" /\ s.lv = 0) \/ t = "eof" THEN Ret("EndAtRule", FALSE, [PopSt(s) EXCEPT !.kw = FALSE])
-    ELSE Ret("Token", FALSE, [s EXCEPT !.lv = Bump(t, @)])
+    ELSE Ret("Token", FALSE, [s EXCEPT !.lv = Bump(t, @), !.kw = TRUE])
 
 \* Parser.Next on the registers r = [i, st, lv, pe, kw]
 Call(r) ==
-    LET cur == IF r.pe THEN [t |-> "rbrace", i |-> r.i]                                   \* the synthesised '}'
-               ELSE PopTok(r.i, r.kw, Len(r.st) = 1)                                      \* popToken(true)
-        s == [r EXCEPT !.i = cur.i, !.pe = FALSE]
-        top == r.st[Len(r.st)]
-    IN CASE top = "SS"  -> Stylesheet(cur.t, s)
-         [] top = "DL"  -> DeclarationList(cur.t, s)
-         [] top = "ARL" -> AtRuleRuleList(cur.t, s)
-         [] top = "ADL" -> AtRuleDeclarationList(cur.t, s)
-         [] top = "AU"  -> AtRuleUnknown(cur.t, s)
-         [] top = "QDL" -> QualifiedRuleDeclarationList(cur.t, s)
+    With(IF r.pe THEN [t |-> "rbrace", i |-> r.i]                                         \* the synthesised '}'
+         ELSE PopTok(r.i, r.kw, Len(r.st) = 1), LAMBDA cur :                              \* popToken(true)
+    With([r EXCEPT !.i = cur.i, !.pe = FALSE], LAMBDA s :
+    With(r.st[Len(r.st)], LAMBDA top :
+    CASE top = "SS"  -> Stylesheet(cur.t, s)
+      [] top = "DL"  -> DeclarationList(cur.t, s)
+      [] top = "ARL" -> AtRuleRuleList(cur.t, s)
+      [] top = "ADL" -> AtRuleDeclarationList(cur.t, s)
+      [] top = "AU"  -> AtRuleUnknown(cur.t, s)
+      [] top = "QDL" -> QualifiedRuleDeclarationList(cur.t, s))))
 
 Regs == [i |-> idx, st |-> st, lv |-> level, pe |-> prevEnd, kw |-> keepWS]
 \* Err() is io.EOF iff there is no parse error and the lexer has consumed the whole input
@@ -222,9 +247,9 @@ KindOf(gt) == IF gt \in {"BeginAtRule", "EndAtRule"} THEN "at" ELSE "rs"
 OpenAfter(o, gt) == IF gt \in {"BeginAtRule", "BeginRuleset"} THEN Append(o, KindOf(gt))
                     ELSE IF gt \in {"EndAtRule", "EndRuleset"} /\ o # <<>> THEN SubSeq(o, 1, Len(o) - 1) ELSE o
 
-Sequences0 == UNION {[1..n -> Alphabet] : n \in 0..MaxTok}
-Init == /\ toks \in {s \in Sequences0 : \A k \in 1..(Len(s) - 1) : Feasible(s[k], s[k + 1])}
-        /\ inline \in BOOLEAN
+Init == /\ \E n \in 0..MaxTok : toks \in [1..n -> Alphabet]
+        /\ \A k \in 1..(Len(toks) - 1) : Feasible(toks[k], toks[k + 1])
+        /\ inline \in Modes
         /\ idx = 1 /\ st = <<IF inline THEN "DL" ELSE "SS">> /\ level = 0 /\ prevEnd = FALSE /\ keepWS = FALSE
         /\ openG = <<>> /\ perrG = FALSE /\ units = <<>> /\ halted = FALSE /\ out = [op |-> "none"]
 
@@ -237,12 +262,11 @@ Step ==
        THEN \* p.state[len(p.state)-1] with an empty stack: index out of range
             /\ out' = [op |-> "panic"] /\ halted' = TRUE
             /\ UNCHANGED <<toks, inline, idx, st, level, prevEnd, keepWS, openG, perrG, units>>
-       ELSE LET c == TLCEval(Call(Regs))
-                u == <<c.gt, c.err, EofAfter(c)>>
-            IN /\ out' = [op |-> "Unit", gt |-> c.gt, pe |-> c.err, eof |-> EofAfter(c)]
+       ELSE \E c \in {Call(Regs)} :          \* (binds the result once, see With)
+               /\ out' = [op |-> "Unit", gt |-> c.gt, pe |-> c.err, eof |-> EofAfter(c)]
                /\ idx' = c.s.i /\ st' = c.s.st /\ level' = c.s.lv /\ prevEnd' = c.s.pe /\ keepWS' = c.s.kw
                /\ openG' = OpenAfter(openG, c.gt) /\ perrG' = (perrG \/ c.err)
-               /\ units' = Append(units, u)
+               /\ units' = Append(units, <<c.gt, c.err, EofAfter(c)>>)
                /\ halted' = Final(c)
                /\ (Final(c) => EmitCase(units'))
                /\ UNCHANGED <<toks, inline>>
